@@ -106,8 +106,10 @@ def have_value(R, x):
     return x
 
 
-def same(R, have, want, exact=False, tol=1e-8):
-    """Compare a library value with an oracle value under semiring R."""
+def same(R, have, want, exact=False, tol=1e-8, trunc=True):
+    """Compare a library value with an oracle value under semiring R.
+    trunc=True: the value passed through CFG.agenda (fixed points truncated at 1e-12 absolute), so exact domains
+    (Q, MaxTimes) are compared exactly OR within 1e-11; trunc=False (automaton operations): strictly exact."""
     from rv.core import close
 
     h, w = have_value(R, have), want_value(R, want)
@@ -124,19 +126,19 @@ def same(R, have, want, exact=False, tol=1e-8):
         # exact up to the library's fixed-point truncation: CFG.agenda ignores updates that move a value
         # by <= 1e-12 (absolute), so max-times values below that may legitimately come out as 0
         try:
-            return float(h) == float(w) or abs(float(h) - float(w)) <= 1e-11
+            return float(h) == float(w) or (trunc and abs(float(h) - float(w)) <= 1e-11)
         except (TypeError, ValueError):
             return False
     if R in ("Expectation", "Entropy"):
-        return close(tuple(h) if isinstance(h, (tuple, list)) else h, tuple(w) if isinstance(w, (tuple, list)) else w, tol)
+        return close(tuple(h) if isinstance(h, (tuple, list)) else h, tuple(w) if isinstance(w, (tuple, list)) else w, tol, exact_types=False)
     if R == "Q" and exact:
         # exact up to the library's fixed-point truncation (CFG.agenda drops updates <= 1e-12 absolute, also
         # for exact rationals: values below that legitimately come out as 0)
         try:
-            return h == w or abs(Fr(h) - Fr(w)) <= Fr(1, 10**11)
+            return h == w or (trunc and abs(Fr(h) - Fr(w)) <= Fr(1, 10**11))
         except (TypeError, ValueError):
             return False
-    return close(h, w, tol)
+    return close(h, w, tol, exact_types=False)
 
 
 def is_zero_value(R, x):
